@@ -232,6 +232,7 @@ def totalW (s : Spec) : List Seg → Option Nat
 /-- decidable sufficient condition for `print` to succeed on every payload of
     the declared shape with an output buffer of `outlen` bytes -/
 def printable (s : Spec) (desc : Str) (outlen : Nat) : Bool :=
+  (s.args.isEmpty || s.hasStr || 0 < s.payloadSize) &&
   match segsOf desc with
   | .ok segs =>
     match totalW s segs with
@@ -383,6 +384,23 @@ theorem print_of_printable (s : Spec) (desc p : Str) (outlen : Nat)
     (hpr : printable s desc outlen = true) (hp : Shape s p) :
     ∃ out, print s desc p outlen = .ok out ∧ substitute s desc p = some out := by
   unfold printable at hpr
+  rw [Bool.and_eq_true] at hpr
+  obtain ⟨hne, hpr⟩ := hpr
+  have hlen := shape_length s p hp
+  have hnonempty : s.args.isEmpty = false → p.isEmpty = false := by
+    intro ha
+    rw [ha] at hne
+    simp only [Bool.false_or, Bool.or_eq_true, decide_eq_true_eq] at hne
+    unfold Shape at hp
+    rcases hne with hs | hz
+    · rw [if_pos hs] at hp
+      obtain ⟨lbl, h1, _⟩ := hp
+      cases p with
+      | nil => simp at h1
+      | cons _ _ => rfl
+    · cases p with
+      | nil => simp at hlen; omega
+      | cons _ _ => rfl
   cases hsegs : segsOf desc with
   | error e => rw [hsegs] at hpr; cases hpr
   | ok segs =>
@@ -401,6 +419,15 @@ theorem print_of_printable (s : Spec) (desc p : Str) (outlen : Nat)
       · unfold print
         have : (outlen == 0) = false := by simp; omega
         rw [this]
+        simp only [Bool.false_eq_true, if_false]
+        have h3 : (!s.args.isEmpty && p.isEmpty) = false := by
+          cases ha : s.args.isEmpty with
+          | true => simp
+          | false => simp [hnonempty ha]
+        have h4 : (!s.args.isEmpty && decide (p.length < s.payloadSize)) = false := by
+          have : ¬ (p.length < s.payloadSize) := by omega
+          simp [this]
+        rw [h3, h4]
         simp only [Bool.false_eq_true, if_false]
         rw [h2, hrun]
         simp
